@@ -282,6 +282,43 @@ func AsInt(v any) (int64, bool) {
 	return 0, false
 }
 
+// CmpInteger orders two integer values of any width and signedness by value (so a uint64 above
+// MaxInt64 is larger than every int64); ok is false when either is not an integer.
+func CmpInteger(a, b any) (int, bool) {
+	ca, ia, ua, _ := classify(a)
+	cb, ib, ub, _ := classify(b)
+	if (ca != intNum && ca != uintNum) || (cb != intNum && cb != uintNum) {
+		return 0, false
+	}
+	// normalise to (negative?, magnitude as uint64 when non-negative)
+	na, nb := ca == intNum && ia < 0, cb == intNum && ib < 0
+	switch {
+	case na && nb:
+		return cmpOrd(ia, ib), true
+	case na:
+		return -1, true
+	case nb:
+		return 1, true
+	}
+	if ca == intNum {
+		ua = uint64(ia)
+	}
+	if cb == intNum {
+		ub = uint64(ib)
+	}
+	return cmpOrd(ua, ub), true
+}
+
+func cmpOrd[T int64 | uint64](a, b T) int {
+	switch {
+	case a < b:
+		return -1
+	case a > b:
+		return 1
+	}
+	return 0
+}
+
 func AsFloat(v any) (float64, bool) {
 	c, _, _, f := classify(v)
 	if c == floatNum {
